@@ -326,12 +326,13 @@ impl Replay {
         let (y, m) = (v["y"].as_i64().unwrap(), v["m"].as_i64().unwrap());
         let mp = v["mp"].as_str().unwrap().to_string();
         let days: Vec<String> = v["days"].as_array().unwrap().iter().map(|s| s.as_str().unwrap().to_string()).collect();
+        let es: Vec<i64> = v["es"].as_array().unwrap().iter().map(|x| x.as_i64().unwrap()).collect();
         assert!(self.time_of.len() == 86400 && self.time_of.iter().all(|s| !s.is_empty()), "clock lines must come first");
         let seed = seed_from_env();
         for (i, dp) in days.iter().enumerate() {
             let day = n0 + i as i64;
             let dom = i as i64 + 1;
-            let fixed = matches!((y, m, dom), (1970, 1, 1) | (2000, 2, 29) | (2038, 1, 19) | (2100, 2, 28) | (2100, 3, 1) | (9999, 12, 31));
+            let fixed = es.contains(&dom); // HttpDate!EverySecondDays
             let drawn = fnv64(&[day.to_le_bytes(), (seed as i64).to_le_bytes()].concat()) % 400_000 == 0;
             let secs: Vec<usize> = if fixed || drawn { (0..86400).collect() }
                 else { vec![0, 86399, self.rng.below(86400)] };
@@ -422,7 +423,7 @@ fn random(n: usize, max_sha: usize) {
     }
     // percent
     for _ in 0..n {
-        let len = rng.below(24);
+        let len = if rng.chance(1, 12) { rng.below(300) } else { rng.below(24) };
         let b: Vec<u8> = (0..len).map(|_| if rng.chance(1, 2) { rng.byte() } else { *rng.pick(&b"aZ09-._~ %+/"[..]) }).collect();
         let e = pct_encode(&b);
         out_line(&rec("pe", &wide(&b), &e.clone().unwrap_or_default(), if e.is_ok() { "ok" } else { "panic" }, len as i64, ""));
